@@ -1443,6 +1443,18 @@ def vec_index(I, st, depth, callee, args, body, ln):
     return TOP
 
 
+def slice_first(I, st, depth, callee, args, body, ln):
+    r = args[0]
+    v = deref(I, st, r)
+    if isinstance(v, Arr):
+        if not v.e:
+            return none()
+        return some(Ref(r.alloc, r.path + (("i", 0),), False))
+    if isinstance(v, ArrS) and isinstance(r, Ref):
+        return En({NONE: (), SOME: (Ref(r.alloc, r.path + (("s", None),), False),)})
+    return En({NONE: (), SOME: (TOP,)})
+
+
 def slice_last(I, st, depth, callee, args, body, ln):
     r = args[0]
     v = deref(I, st, r)
@@ -1602,6 +1614,7 @@ TABLE.update({
     "alloc::str::<impl str>::to_lowercase": str_to_lowercase,
     "alloc::vec::Vec::<T, A>::append": vec_append,
     "core::slice::<impl [T]>::last": slice_last,
+    "core::slice::<impl [T]>::first": slice_first,
     "core::slice::<impl [T]>::len": vec_len,
     "core::slice::<impl [T]>::is_empty": vec_is_empty,
     "core::iter::traits::collect::IntoIterator::into_iter": into_iter,
